@@ -17,6 +17,15 @@ def opt(v):
     return [0, 0] if v is None else ([1, v] if isinstance(v, int) and not isinstance(v, bool) else [1, repr(v)])
 
 
+# the names the application gives its template operands: arbitrary identifiers, among them words the SDK
+# itself uses for the labels it generates (a template is not a label)
+TEMPLATE_NAMES = {"t1": "theta", "t2": "LOOP", "t3": "IF_EXIT", "t4": "LOOP_EXIT", "t5": "angle_5", "t6": "WHILE_EXIT"}
+
+
+def template_name(t: str) -> str:
+    return TEMPLATE_NAMES.get(t, t)
+
+
 class SdkRun:
     """Executes one history (list of items) and records items (TLA form) + observations."""
 
@@ -127,7 +136,7 @@ class SdkRun:
             n = s["n"]
             if isinstance(n, str):          # a template operand: "t<j>"
                 from netqasm.lang.operand import Template
-                getattr(q, {"rot_x": "rot_X", "rot_y": "rot_Y", "rot_z": "rot_Z"}[s["g"]])(n=Template(n), d=s["d"])
+                getattr(q, {"rot_x": "rot_X", "rot_y": "rot_Y", "rot_z": "rot_Z"}[s["g"]])(n=Template(template_name(n)), d=s["d"])
                 return [{"s": "gate", "g": s["g"], "vids": [q.qubit_id], "imm": [-int(n[1:]), s["d"]]}]
             getattr(q, {"rot_x": "rot_X", "rot_y": "rot_Y", "rot_z": "rot_Z"}[s["g"]])(n=n, d=s["d"])
             return [{"s": "gate", "g": s["g"], "vids": [q.qubit_id], "imm": [s["n"], s["d"]]}]
@@ -264,7 +273,7 @@ class SdkRun:
             sub = self.compiled[item["obj"] - 1]
             vals = item["vals"]
             try:
-                sub.instantiate(self.conn.app_id, {f"t{j + 1}": v for j, v in enumerate(vals)})
+                sub.instantiate(self.conn.app_id, {template_name(f"t{j + 1}"): v for j, v in enumerate(vals)})
                 self.conn.commit_subroutine(sub)
                 self.obs.append(self.snapshot_flush(False))
             except (rig.ControllerFault, rig.ScriptExhausted) as ex:
